@@ -64,11 +64,17 @@ def case_C14(seed):
         e2 = G.destination(s1, b1, Lk)
         foot = G.destination(s1, b1, rnd.choice([0.25, 0.4, 0.6, 1.5]))
         pq = G.destination(foot, b1 + rnd.choice([90.0, -90.0]), rnd.uniform(0.5, 20.0))
+        if seed % 6 == 3 and abs(s1[0]) < 60:
+            # regional scale: a link of 20 .. 150 km (motorway, rail, ferry), the query kilometres off, its foot deep inside
+            Lk = rnd.uniform(20000.0, 150000.0)
+            e2 = G.destination(s1, b1, Lk)
+            foot = G.destination(s1, b1, rnd.uniform(0.2, 0.9) * Lk)
+            pq = G.destination(foot, rnd.uniform(0.0, 360.0), rnd.uniform(1000.0, 40000.0))
         dk, pik, tik = dl.distance_point_to_segment(pq, s1, e2)
         rdk, rpik, rtik = G.nearest_on_arc(pq, s1, e2)
         d2k, pi2k, ti2k = dl.distance_point_to_segment(pq, e2, s1)
         if not close(dk, rdk, 1e-6, tol_d) or G.gc_distance(pik, rpik) > tol_d + 1e-6 * Lk or abs(tik - rtik) * Lk > tol_d + 1e-6 * Lk:
-            viol.append(('C14:point-to-segment-near-the-first-end-point-of-a-long-segment',
+            viol.append(('C14:point-to-segment-on-a-long-segment(directed probe)',
                          f"L = {Lk} m: {(dk, pik, tik)} vs spherical reference {(rdk, rpik, rtik)}", {'s1': s1, 's2': e2, 'p': pq, 'L': Lk}))
         elif G.gc_distance(pik, pi2k) > 2 * tol_d or abs(tik - (1 - ti2k)) * Lk > 2 * tol_d + 2e-6 * Lk:
             viol.append(('C14:not-invariant-under-end-point-swap', f"L = {Lk} m: (s1,s2): {(dk, pik, tik)}; (s2,s1): {(d2k, pi2k, ti2k)}", {'s1': s1, 's2': e2, 'p': pq, 'L': Lk}))
@@ -398,7 +404,11 @@ def case_C05_latlon(seed):
     case = U.gen_case(rnd, width=0)
     s = 10.0
     lat0, lon0 = rnd.choice([a for a in ANCHORS if abs(a[0]) < 60])
-    if seed % 2 == 0:
+    if seed % 5 == 3:
+        # regional scale: 20 km per grid unit (edges of 10 .. 100 km: motorway, rail and ferry links), fixes kilometres off
+        s = 20000.0
+        lat0 = max(-45.0, min(45.0, lat0))
+    elif seed % 2 == 0:
         # fixes a few decimetres from a node
         pts_ = [v[0] for v in case['graph'].values()]
         tr_ = []
@@ -438,7 +448,7 @@ def case_C05_latlon(seed):
             rd, rpi, rti = G.nearest_on_arc(o, m.edge_m.p1, m.edge_m.p2)
             if abs(m.dist_obs - rd) > 0.12 + 1e-6 * rd:
                 bad.append(f"dist_obs {m.dist_obs} m is not the distance {rd} m to the nearest point of the edge")
-            if G.gc_distance(m.edge_m.pi, rpi) > 0.15 + 1e-6 * rd:
+            if G.gc_distance(m.edge_m.pi, rpi) > 0.15 + 1e-6 * (rd + G.gc_distance(o, m.edge_m.p1)):
                 bad.append(f"reported position {m.edge_m.pi} is {G.gc_distance(m.edge_m.pi, rpi)} m from the nearest point {rpi} of the edge")
         else:
             rd = G.gc_distance(o, m.edge_m.p1)
